@@ -74,10 +74,12 @@ def extract(ctx):
             ctx.gen_fail("C04", "header field %s not found in parseAndVerifyVAA" % name); return None
         rh.append((name, int(mm.group(1)), int(mm.group(2)) - int(mm.group(1))))
     facts["ralHeader"] = rh
-    mm = re.search(r"let body\s*=\s*byteVecSlice!\(data,\s*(\d+)\s*\+\s*signatureSize\s*\*\s*(\d+),\s*size!\(data\)\)", fn)
+    mm = re.search(r"let body\s*=\s*byteVecSlice!\(data,\s*(\d+)\s*\+\s*(\w+)\s*\*\s*(\d+),\s*size!\(data\)\)", fn)
     if not mm:
         ctx.gen_fail("C04", "`let body = byteVecSlice!(data, 6 + signatureSize * 66, size!(data))` not found"); return None
-    facts["ralBodyStart"] = (int(mm.group(1)), int(mm.group(2)))
+    facts["ralBodyStart"] = (int(mm.group(1)), int(mm.group(3)))
+    # the multiplier must be the number of signature records actually present on the wire (byte 5), nothing else
+    facts["ralBodyStartCount"] = mm.group(2)
     facts["ralDoubleHash"] = bool(re.search(r"let hash\s*=\s*keccak256!\(keccak256!\(body\)\)", fn))
     mm = re.search(r"let mut offset\s*=\s*(\d+)", fn)
     m2 = re.search(r"let guardianIndex\s*=\s*u256From1Byte!\(byteVecSlice!\(data,\s*offset,\s*offset\s*\+\s*(\d+)\)\)", fn)
@@ -127,6 +129,7 @@ def gen(ctx):
     src += "def ralSig : List (String × Nat × Nat) := %s\n" % lean_list(f["ralSig"])
     src += "def ralSigStart : Nat := %d\ndef ralSigStride : Nat := %d\n" % (f["ralSigStart"], f["ralSigStride"])
     src += "/-- body = data[a + signatureSize * b ..] -/\ndef ralBodyStart : Nat × Nat := (%d, %d)\n" % f["ralBodyStart"]
+    src += "/-- the variable the body offset is multiplied by -/\ndef ralBodyStartCount : String := \"%s\"\n" % f["ralBodyStartCount"]
     src += "def ralBody : List (String × Nat × Nat) := %s\n" % lean_list(f["ralBody"])
     src += "/-- fields whose integer conversion width differs from the slice it is applied to -/\ndef ralConvMismatch : Nat := %d\n" % len(f["ralConvMismatch"])
     src += "def ralDoubleHash : Bool := %s\n\n/-- structs.go: SigningMsg = Keccak(Keccak(serializeBody)) -/\ndef goDoubleHash : Bool := %s\n" % (b(f["ralDoubleHash"]), b(f["goDoubleHash"]))
